@@ -73,7 +73,9 @@ func (C08) Gen(t *tape.Tape, tier string) any {
 	n := int64(sc.Plan.NRows)
 	nops := t.Range(3, 30)
 	for i := 0; i < nops; i++ {
-		switch t.Weighted(5, 5, 1) {
+		switch t.Weighted(5, 5, 1, 1) {
+		case 3:
+			sc.Ops = append(sc.Ops, SeekOp{Op: "reset"})
 		case 0:
 			var k int64
 			switch t.Weighted(4, 1, 1, 2) {
@@ -218,6 +220,18 @@ func c08RowOps(c *core.Ctx, subject string, r rowSeekReader, model []parquet.Row
 	for i, op := range ops {
 		c.Step()
 		switch op.Op {
+		case "reset":
+			if rs, ok := r.(interface{ Reset() }); ok {
+				hist += " reset"
+				rs.Reset()
+				if cursor > 0 {
+					*back++
+				}
+				cursor = 0
+				seeked = true
+				stalls = 0
+				c.Event("reset")
+			}
 		case "seek":
 			hist += fmt.Sprintf(" seek%d", op.K)
 			if err := r.SeekToRow(op.K); err != nil {
@@ -278,6 +292,16 @@ func c08TypedOps(c *core.Ctx, sh gen.Shape, data gen.Data, r gen.TypedReader, mo
 	for i, op := range ops {
 		c.Step()
 		switch op.Op {
+		case "reset":
+			hist += " reset"
+			r.Reset()
+			if cursor > 0 {
+				*back++
+			}
+			cursor = 0
+			seeked = true
+			stalls = 0
+			c.Event("reset")
 		case "seek":
 			hist += fmt.Sprintf(" seek%d", op.K)
 			if err := r.SeekToRow(op.K); err != nil {
